@@ -285,3 +285,11 @@ Proof.
   - inversion E; subst. rewrite Hg in H. destruct (is_waiting (f_state x)); [discriminate | reflexivity].
   - destruct (g f') as [y|]; [destruct (is_waiting (f_state y)); [discriminate|]|]; eapply IH; eauto.
 Qed.
+
+Lemma set_waker_other f w f1 w1 l : f1 <> f -> In (f1, w1) (set_waker f w l) -> In (f1, w1) l.
+Proof.
+  intros Hne. induction l as [|[f' w'] t IH]; cbn [set_waker]; intros H; [exact H|].
+  destruct (N.eqb_spec f f') as [->|Hn].
+  - destruct H as [E|H]; [inversion E; subst; contradiction | right; exact H].
+  - destruct H as [E|H]; [left; exact E | right; apply IH; exact H].
+Qed.
